@@ -109,7 +109,7 @@ def run(v, tier, replay):
     def child(i):
         inp = os.path.join(sd2, "h-%d.ndjson" % i); out = os.path.join(sd2, "o-%d.ndjson" % i)
         lib.write_ndjson(inp, hs[i::NP])
-        rc, so, se = lib.overlay_test("hopserver", "^TestVerifGrantsReplay$", env_extra={"VT_IN": inp, "VT_OUT": out}, timeout=1500)
+        rc, so, se = lib.overlay_test("hopserver", "^TestVerifGrantsReplay$", env_extra={"VT_IN": inp, "VT_OUT": out}, timeout=1500, only=["zz_verif_grants_test.go"])
         return i, rc, out, (so + se)[-3000:]
     with concurrent.futures.ThreadPoolExecutor(max_workers=NP) as ex:
         for i, rc, out, tail in ex.map(child, range(NP)):
